@@ -17,6 +17,9 @@ structure Case where
   holdCtx    : Bool     -- "hold-close": the held call (and every other call of the fakes) honours cancellation — it returns only when its context ends
   work       : Nat      -- log payloads handed out per tick (> 0: the pipeline is exercised throughout the case)
   auxMax     : Nat      -- helper goroutines all services of one plugin own together (cache GCs, worker-group loops)
+  family     : String := ""   -- "" = OCR3 plugin, "v2" = OCR2 plugin
+  ctorFault  : String := ""   -- scenario "ctor-fail": what makes the constructor fail ("" = nothing)
+  closeFault : String := ""   -- a collaborator's close step fails: "v2-coordinator-close" | "unsubscribe" ("" = nothing)
 deriving DecidableEq, Repr
 
 /-- canonical observation -/
@@ -50,6 +53,8 @@ structure Obs where
   resumedWithinNs    : Nat
   othersTicked       : Bool   -- scenario "panic": every other flow kept ticking during the cool-down period after the first and after the last panic
   pipelineDone       : Bool   -- scenario "panic": a pipeline call that began after the last panic has returned
+  ctorFailed         : Bool := true   -- scenario "ctor-fail": the constructor returned an error and no instance
+  ctorLeft           : Nat := 0       -- … goroutines of the repository + provider calls + block subscriptions 35 virtual seconds after that call
 deriving DecidableEq, Repr
 
 /-- something of the instance is still there after Close -/
@@ -487,6 +492,321 @@ def vevIndices : List VItem → List Nat
 
 def vtraceOk (evs : Array Ev) (items : List VItem) : Bool :=
   wellOrdered evs (vevIndices items) && (vreplay evs { c := vinit } items).isSome
+
+end V2
+
+/-! ### constructors that fail, collaborators whose close step fails
+
+`spec` / `classify` above are about an instance that was built.  `specFull` adds the two clauses that are about the
+edges of its life: a constructor that fails must return an error and NO instance and leave nothing running (whatever
+it had built by then); a close step of a collaborator that fails (the OCR2 coordinator's Close; the block source's
+Unsubscribe) is reported by Close and must not keep Close from stopping everything else — nor, for Unsubscribe, the
+metadata store's own loop. -/
+
+/-- the constructor clause -/
+def ctorOk (cs : Case) (o : Obs) : Bool := cs.ctorFault == "" || (o.ctorFailed && decide (o.ctorLeft = 0))
+
+/-- what the instance's Close leaves when `Unsubscribe` fails and the metadata store gives up before its stop signal:
+    exactly that store's loop (and its subscription), reported by exactly one error, nothing else wrong — also not
+    repaired by a second Close (the recoverer has cleared its flag) -/
+def isUnsubLeak (cs : Case) (o : Obs) : Bool :=
+  cs.closeFault == "unsubscribe" && o.survived && !o.hung && o.closeReturned && !o.closePanicked &&
+  decide (o.errOther = 1) && decide (o.errNotRunning = 0) && decide (o.errNotStarted = 0) &&
+  decide (o.leakedService = 1) && decide (o.leakedServiceStart = 0) && decide (o.leakedAux = 0) && decide (o.leakedInflight = 0) &&
+  decide (o.after2ndService = 1) && decide (o.after2ndServiceStart = 0)
+
+inductive VerdictFull
+  | base (v : Verdict)
+  | ctorAccepted        -- the constructor returned no error (or an instance) for an input it must refuse
+  | ctorLeftRunning     -- it failed and left something running
+  | unsubLeak           -- Unsubscribe failed and the metadata store's loop was left running
+deriving DecidableEq, Repr
+
+def classifyFull (cs : Case) (o : Obs) : VerdictFull :=
+  if !ctorOk cs o then (if !o.ctorFailed then .ctorAccepted else .ctorLeftRunning)
+  else if isUnsubLeak cs o then .unsubLeak
+  else .base (classify cs o)
+
+def specFull (cs : Case) (o : Obs) : Bool := ctorOk cs o && !isUnsubLeak cs o && spec cs o
+
+def explainFull (cs : Case) (o : Obs) : String :=
+  match classifyFull cs o with
+  | .base v => render cs o v
+  | .ctorAccepted => s!"constructor-accepted: the constructor was given {cs.ctorFault} and did not fail (no error, or an instance next to the error)"
+  | .ctorLeftRunning => s!"constructor-failed-left-running: the constructor failed on {cs.ctorFault} and 35 virtual seconds later {o.ctorLeft} goroutine(s) / provider call(s) / subscription(s) of the half-built instance are still there"
+  | .unsubLeak => "unsubscribe-error-store-runs: the block source's Unsubscribe failed; Close reported it, stopped the other services and left the metadata store's loop running for good (a second Close is refused: the recoverer has cleared its flag)"
+
+def VerdictFull.tag : VerdictFull → String
+  | .base v => v.tag
+  | .ctorAccepted => "constructor-accepted" | .ctorLeftRunning => "constructor-failed-left-running" | .unsubLeak => "unsubscribe-error-store-runs"
+
+/-- the model of the failing constructor: which step fails, and how many services had been started by then -/
+def ctorPredict (cs : Case) : Ctor × Nat :=
+  let f := cs.ctorFault
+  if cs.family == "v2" then newReportingPluginOutcomeV2 (f == "bad-json") (f == "coordinator-factory") (f == "observer-factory")
+  else newReportingPluginOutcome (f == "bad-json") (f == "bad-probability") (f == "probability-range" || f == "nodes-range")
+         (decide ((newPluginOutcome (f == "subscribe") false false cs.services).1 = .failed)) cs.services
+
+/-- the tree as it is ("fix: metadata store: a failing Unsubscribe no longer leaves the Start loop running after Close"): the
+    store's Close sends its stop signal whatever Unsubscribe returned, then reports the error -/
+def unsubStopsNow : Bool := true
+
+/-- `predict` plus the faults of this section.  `unsubStops`: the metadata store sends its stop signal whatever Unsubscribe
+    returned (false = the tree as it is: it returns the error first) -/
+def predictFull (fx : Fixes) (unsubStops : Bool) (cs : Case) (closedAtNs nNotRunning0 nNotStarted0 : Nat) (closeCalled : Bool) (panics : Nat) : Obs :=
+  let m := predict fx cs closedAtNs nNotRunning0 nNotStarted0 closeCalled panics
+  let m := if cs.ctorFault == "" then m
+           else { m with ctorFailed := decide ((ctorPredict cs).1 = .failed), ctorLeft := if (ctorPredict cs).1 = .failed then (ctorPredict cs).2 else 0 }
+  if cs.closeFault == "" || !closeCalled then m
+  else
+    let (closed, errs) := closeAll ((List.range cs.services).map fun i => decide (i = 0))   -- one sub-service's close step fails
+    let m := { m with errOther := errs, leakedService := m.leakedService + (cs.services - closed) }
+    if cs.closeFault == "unsubscribe" && !unsubStops then
+      { m with leakedService := m.leakedService + 1, ticking := true, bubbleEnded := false, after2ndService := m.after2ndService + 1 }
+    else m
+
+/-! ### scripts on one service (family "svc")
+
+One real service, bare or behind `service.NewRecoverer`, driven by caller operations issued at rest.  What C18 and the
+documented contract of `Start` / `Close` ("returns an error if the recoverer is already running / already stopped") say
+about such a run, on the observation alone: -/
+
+structure OpObs where
+  op  : String     -- start | cancel | close | panic | wait | cool (time: the restart cool-down elapsed)
+  res : String     -- start: pending | nil | refused; close: ok | not-running | refused | error | pending; else ""
+  serviceStart : Nat
+  service      : Nat
+  inflight     : Nat
+deriving DecidableEq, Repr
+
+structure ScriptObs where
+  survived : Bool
+  hung     : Bool
+  ops      : List OpObs
+  finalServiceStart : Nat     -- 25 virtual seconds after the last operation (more than a cool-down)
+  finalService      : Nat
+  finalInflight     : Nat
+  closesReturned    : Bool    -- every Close call had returned by then
+  process   : Nat             -- ticker: observer.Process calls
+  goodTicks : Nat             -- ticker: getter calls that returned a tick
+  finalSubscribed : Nat := 0  -- metadata store: block subscriptions still registered at the end (0 for every other kind)
+deriving DecidableEq, Repr
+
+/-- a Start call is in progress after this operation -/
+def OpObs.busy (wrap : Bool) (o : OpObs) : Bool := if wrap then decide (o.serviceStart > 0) else decide (o.service > 0)
+
+/-- Start while a Start is in progress is refused at once; (recoverer) Start while none is in progress is accepted -/
+def startsOk (wrap guarded : Bool) : Bool → List OpObs → Bool
+  | _, [] => true
+  | busy, o :: os =>
+    (if o.op == "start" then
+       (if busy then (!guarded || o.res == "refused") else (!wrap || o.res == "pending"))
+     else true) && startsOk wrap guarded (o.busy wrap) os
+
+/-- a Close that finds the service running is not turned away: behind the recoverer it is never "not running" while a Start
+    call is in progress whose context was not cancelled (at rest the flag is set), and a bare service whose loop runs does
+    not refuse it -/
+def closesOk (wrap : Bool) : Bool → Bool → Nat → List OpObs → Bool
+  | _, _, _, [] => true
+  | cancelled, busy, loops, o :: os =>
+    (if o.op == "close" then
+       (if wrap then (cancelled || !busy || o.res != "not-running") else (decide (loops = 0) || o.res != "refused"))
+     else true) && closesOk wrap (cancelled || o.op == "cancel") (o.busy wrap) o.service os
+
+/-- the last thing the caller did to a Start call in progress was to cancel its context (no accepted Start since) -/
+def endsCancelled (ops : List OpObs) : Bool :=
+  match (ops.filter fun o => (o.op == "start" && o.res == "pending") || o.op == "cancel").getLast? with
+  | some o => o.op == "cancel"
+  | none => false
+
+/-- when the context of Start ends, the recoverer's Start returns — at the latest when a cool-down in progress is over — and
+    a service that selects on that context (ticker, result store, metadata store) has left its loop -/
+def cancelsOk (wrap honours : Bool) (o : ScriptObs) : Bool :=
+  !endsCancelled o.ops || ((!wrap || decide (o.finalServiceStart = 0)) && (!honours || decide (o.finalService = 0)))
+
+/-- some Start was accepted -/
+def everStarted (ops : List OpObs) : Bool := ops.any fun o => o.op == "start" && o.res == "pending"
+
+/-- a service that has been started and whose loop is gone holds no block subscription any more -/
+def subscriptionOk (o : ScriptObs) : Bool := decide (o.finalService > 0) || !everStarted o.ops || decide (o.finalSubscribed = 0)
+
+/-- the service's loop does not end on its own: from the first accepted Start until the caller cancels, closes or injects a
+    panic, a service loop is running after every operation (a loop that has vanished died of a panic nobody injected) -/
+def loopAliveOk : Bool → Bool → List OpObs → Bool
+  | _, _, [] => true
+  | started, disturbed, o :: os =>
+    let started := started || (o.op == "start" && o.res == "pending")
+    let disturbed := disturbed || o.op == "cancel" || o.op == "close" || o.op == "panic"
+    (!started || disturbed || decide (o.service ≥ 1)) && loopAliveOk started disturbed os
+
+/-- the last caller operation was a Close that returned nil -/
+def endsClosed (ops : List OpObs) : Bool :=
+  match (ops.filter fun o => o.op == "start" || o.op == "close" || o.op == "cancel" || o.op == "panic").getLast? with
+  | some o => o.op == "close" && o.res == "ok"
+  | none => false
+
+/-- no Start / Close call of the script raised a panic on the caller's goroutine -/
+def noOpPanics (ops : List OpObs) : Bool := ops.all fun o => o.res != "panicked!"
+
+def specScript (wrap guarded : Bool) (o : ScriptObs) (honours : Bool := false) : Bool :=
+  o.survived && !o.hung && o.closesReturned && noOpPanics o.ops &&
+  startsOk wrap guarded false o.ops && closesOk wrap false false 0 o.ops && cancelsOk wrap honours o && loopAliveOk false false o.ops && subscriptionOk o &&
+  (!endsClosed o.ops || (decide (o.finalServiceStart = 0) && decide (o.finalService = 0) && decide (o.finalInflight = 0))) &&
+  decide (o.process = o.goodTicks)
+
+def explainScript (wrap guarded : Bool) (o : ScriptObs) (honours : Bool := false) : String :=
+  if !o.survived then "script/process-died: the process was terminated while the script ran"
+  else if o.hung then "script/hung: the case stopped making progress in real time"
+  else if !noOpPanics o.ops then "script/call-panicked: a Start or Close call raised a panic on the caller's goroutine"
+  else if !o.closesReturned then "script/close-did-not-return: a Close call had not returned 25 virtual seconds after the last operation"
+  else if !startsOk wrap guarded false o.ops then "script/start-discipline: a Start issued while a Start was in progress was not refused at once, or a Start issued while none was in progress was refused"
+  else if !closesOk wrap false false 0 o.ops then "script/close-turned-away: a Close issued while the service was running was refused (\"not running\" by the recoverer while its Start was in progress, or by the bare service while its loop ran)"
+  else if !loopAliveOk false false o.ops then "script/service-loop-gone: the service's loop ended on its own (no Close, no cancelled context, no injected panic) while its Start call was still in progress"
+  else if !cancelsOk wrap honours o then s!"script/outlives-context: 25 virtual seconds after the context of Start was cancelled {o.finalServiceStart} serviceStart and {o.finalService} service loop(s) are still there"
+  else if !subscriptionOk o then s!"script/subscription-left: the service's loop is gone and {o.finalSubscribed} block subscription(s) of it are still registered"
+  else if !decide (o.process = o.goodTicks) then s!"script/tick-discipline: the observer was called {o.process} times for {o.goodTicks} ticks the getter delivered"
+  else if specScript wrap guarded o honours then "ok"
+  else s!"script/left-after-close: the last operation was a Close that returned nil; {o.finalServiceStart} serviceStart, {o.finalService} service and {o.finalInflight} other goroutine(s) remain"
+
+def XRes.str : XRes → String
+  | .none => "" | .accepted => "pending" | .refused => "refused" | .closeOk => "ok" | .closeNotRunning => "not-running"
+  | .closeRefused => "refused" | .blocked => "pending" | .outside => "outside"
+
+def BRes.str : BRes → String
+  | .none => "" | .pending => "pending" | .returnedNil => "nil" | .returnedErr => "error" | .refused => "refused"
+  | .closeOk => "ok" | .closeRefused => "refused" | .closeError => "error" | .blocked => "pending"
+
+def XOp.str : XOp → String
+  | .start => "start" | .cancel => "cancel" | .close => "close" | .panic => "panic" | .coolDown => "cool"
+
+/-- the model's observation of a recoverer script (`cools` = where the cool-down elapses is part of the script) -/
+def xscriptObs (latched honours : Bool) (ops : List XOp) : ScriptObs :=
+  let (rs, xf) := xscript scriptFuel (xfresh latched honours) ops
+  -- 25 s later: a pending cool-down has elapsed, everything has come to rest
+  let xe := (xapply scriptFuel xf .coolDown).1
+  { survived := true, hung := false,
+    ops := (ops.zip rs).map fun (op, (r, a)) => { op := op.str, res := r.str, serviceStart := a.serviceStart, service := a.service, inflight := a.inflight },
+    finalServiceStart := xe.aliveNow.serviceStart, finalService := xe.aliveNow.service, finalInflight := xe.aliveNow.inflight,
+    closesReturned := decide (xe.c.cpc = .idle ∨ xe.c.cpc = .ret), process := 0, goodTicks := 0 }
+
+def BOp.str : BOp → String
+  | .start => "start" | .cancel => "cancel" | .close => "close"
+
+def bscriptObs (b : Bare) (ops : List BOp) : ScriptObs :=
+  let (rs, bf) := bscript b ops
+  { survived := true, hung := false,
+    ops := (ops.zip rs).map fun (op, (r, n)) => { op := op.str, res := r.str, serviceStart := 0, service := n, inflight := if r = .blocked then 1 else 0 },
+    finalServiceStart := 0, finalService := bf.loops, finalInflight := if rs.any (fun p => p.1 = .blocked) then 1 else 0,
+    closesReturned := !rs.any (fun p => p.1 = .blocked), process := 0, goodTicks := 0 }
+
+/-! ### trace validation of a directly driven recoverer: `tstep` plus the steps of `xstep` -/
+
+structure TStateX where
+  t       : TState
+  ctxDone : Bool := false
+  honours : Bool
+  cancels : Nat        -- cancellations of a Start context the script still holds
+  closeErrOk : Bool := false   -- the case injects a collaborator failure into the wrapped service's Close (`cSvcCloseErr` may be filled in)
+deriving DecidableEq, Repr
+
+def TStateX.x (s : TStateX) : XCore := { c := s.t.c, ctxDone := s.ctxDone, honours := s.honours }
+
+def TStateX.withX (s : TStateX) (x : XCore) : TStateX := { s with t := { s.t with c := x.c }, ctxDone := x.ctxDone }
+
+def liftT (s : TStateX) (r : Option TState) : Option TStateX := r.map fun t' => { s with t := t' }
+
+def tstepX (s : TStateX) (e : Ev) : Option TStateX :=
+  match e.pt with
+  | "ss.ctxdone" =>     -- serviceStart took the `ctx.Done()` arm (nothing had been handed to it)
+    if s.t.handed = none then (xrun s.x [.sCtxDone]).map s.withX else none
+  | "start.running" =>
+    if s.t.c.spc = .init then liftT s (tstep false s.t e)
+    else if s.t.c.spc = .done then (if s.t.c.running then (xrun s.x [.startAgain, .core .sInit]).map s.withX else none)
+    else (xrun s.x [.startRefused]).map s.withX
+  | "start.idle" =>
+    if s.t.c.spc = .done then (if s.t.c.running then none else (xrun s.x [.startAgain, .core .sInit]).map s.withX)
+    else liftT s (tstep false s.t e)
+  | _ => liftT s (tstep false s.t e)
+
+inductive ItemX
+  | ev (i : Nat)
+  | hid (l : CLabel)
+  | cancel            -- the caller cancels the context (no hook: the harness does it)
+  | gctx              -- the wrapped service's loop sees its context end (no hook: inside the service)
+  | closeErr          -- the wrapped service's Close stops it and returns an error (no hook: inside the service)
+deriving DecidableEq, Repr
+
+def replayX (evs : Array Ev) : TStateX → List ItemX → Option TStateX
+  | s, [] => some s
+  | s, .ev i :: is =>
+    (match evs[i]? with
+     | none => none
+     | some e =>
+       match tstepX s e with
+       | some s' => replayX evs s' is
+       | none => none)
+  | s, .hid l :: is =>
+    if hiddenOk s.t l then
+      (match xrun s.x [.core l] with
+       | some x' => replayX evs (s.withX x') is
+       | none => none)
+    else none
+  | s, .cancel :: is =>
+    if s.cancels = 0 then none
+    else (match xrun s.x [.ctxCancel] with
+      | some x' => replayX evs { s.withX x' with cancels := s.cancels - 1 } is
+      | none => none)
+  | s, .gctx :: is =>
+    (match xrun s.x [.gCtxSeen] with
+     | some x' => replayX evs (s.withX x') is
+     | none => none)
+  | s, .closeErr :: is =>
+    if s.closeErrOk then
+      (match xrun s.x [.cSvcCloseErr] with
+       | some x' => replayX evs (s.withX x') is
+       | none => none)
+    else none
+
+def evIndicesX : List ItemX → List Nat
+  | [] => []
+  | .ev i :: is => i :: evIndicesX is
+  | _ :: is => evIndicesX is
+
+/-- the recoverer as constructed: no Start call yet -/
+def tinitX (latched honours : Bool) (cancels : Nat) (closeErrOk : Bool := false) : TStateX :=
+  { t := { c := (xfresh latched honours).c }, honours := honours, cancels := cancels, closeErrOk := closeErrOk }
+
+def traceOkX (latched honours : Bool) (cancels : Nat) (evs : Array Ev) (items : List ItemX) (closeErrOk : Bool := false) : Bool :=
+  wellOrdered evs (evIndicesX items) && (replayX evs (tinitX latched honours cancels closeErrOk) items).isSome
+
+/-! ### scripts on the OCR2 polling observer (its `RecoverableService` is reachable through `polling.NewPollingObserver` only) -/
+namespace V2
+
+def vsysLabels : List VLabel := [.wStopSeen, .wSel, .gEnter, .gReturnErr, .gSendNil, .gSendErr, .gSendStopped, .wRerun]
+
+def vsettle : Nat → VCore → VCore
+  | 0, c => c
+  | fuel + 1, c =>
+    match vsysLabels.findSome? (vstep c) with
+    | some c' => vsettle fuel c'
+    | none => c
+
+/-- observer.Start / observer.Close behind their `sync.Once` guards: only the first call of each reaches the service -/
+structure VObs where
+  c : VCore
+  started : Bool := false
+  stopped : Bool := false
+deriving DecidableEq, Repr
+
+def vapplyOp (o : VObs) (start : Bool) : VObs :=
+  if start then
+    (if o.started then o else { o with started := true, c := vsettle 32 ((vstep o.c .start).getD o.c) })
+  else
+    (if o.stopped then o else { o with stopped := true, c := vsettle 32 ((vstep o.c .stop).getD o.c) })
+
+def VCore.aliveNow (c : VCore) : Alive :=
+  { serviceStart := if c.wpc = .absent ∨ c.wpc = .done then 0 else 1, service := c.nDo,
+    inflight := c.nCall + c.nSendNil + c.nSendErr + c.nSendStopped }
 
 end V2
 
